@@ -1,3 +1,47 @@
-From Coq Require Import List String.
-Example C11_placeholder : True. Proof. exact I. Qed.
-Print Assumptions C11_placeholder.
+(** C11 — all Finders give the same answer for the same data.  Property theorems only.
+    Search/Finders.v is generic: every finder (path tree, list, constants) is the SAME find / do_find / sorted_search
+    over its own star search.  Proved: the answer depends on the finder only through its star search (congruence); for ">"
+    even only through the SET of candidates (order of enumeration irrelevant); the generic finder over a list IS the
+    list finder of C08/C09; injected junk (paths that resolve to no Sid) changes no result of a path search and makes none fail;
+    every path-search result is a Sid of the searched type that resolves from an existing matching path and matches the search.
+    The equality "tree search = list search over the same entities" itself is checked on the implementation (real trees,
+    both configurations, junk) and by correspondence with the file-system model: NOT a theorem (partial). *)
+From Coq Require Import List String Ascii Bool Arith Permutation Sorted.
+From Spil Require Import Base.Str Base.Dict Base.Outcome Regex.Re Conf.Conf Conf.Routing Conf.WF Sid.Sid
+  Search.Unfold Search.FindList Search.Finders Search.FindListProofs Search.FindersProofs FS.Fs Data.Data Data.VersionProofs.
+From SpilGen Require Hamlet.
+Import ListNotations.
+Local Open Scope string_scope.
+
+Theorem C11_finder_congruence : forall Ld star1 star2, (forall qs, star1 qs = star2 qs) ->
+  (forall qs, sorted_search_g Ld star1 qs = sorted_search_g Ld star2 qs) /\
+  (forall qs, do_find_g Ld star1 qs = do_find_g Ld star2 qs) /\
+  (forall s, find_g Ld star1 s = find_g Ld star2 s).
+Proof. exact find_g_ext. Qed.
+Print Assumptions C11_finder_congruence.
+
+Theorem C11_list_instance : forall Ld items,
+  (forall qs, sorted_search_g Ld (fun qs0 => star_search qs0 items) qs = sorted_search Ld qs items) /\
+  (forall qs, do_find_g Ld (fun qs0 => star_search qs0 items) qs = do_find Ld qs items) /\
+  (forall s, find_g Ld (fun qs => star_search qs items) s = find_list Ld items s).
+Proof. exact flist_is_find_list. Qed.
+Print Assumptions C11_list_instance.
+
+(* files / folders that resolve to no Sid never change a path search nor make it fail *)
+Theorem C11_junk : forall Ld cfg F F',
+  (forall p, In p (dkeys F) -> In p (dkeys F')) ->
+  (forall p, In p (dkeys F') -> ~ In p (dkeys F) -> sid_factory Ld (FromPath p cfg) = Ok empty_sid) ->
+  forall id s, set_rel (ffind Ld F (FPaths id cfg) s) (ffind Ld F' (FPaths id cfg) s).
+Proof. exact find_paths_junk. Qed.
+Print Assumptions C11_junk.
+
+(* soundness of a path search: every result comes from an existing path matching the glob of the search,
+   resolving to a Sid of the searched type whose fields match the search (the repaired D14) *)
+Theorem C11_paths_sound : forall Ld cfg F qs r, paths_star Ld F cfg qs = Ok r ->
+  forall s, In s r -> exists q, In q qs /\ hit Ld cfg F q s.
+Proof. exact paths_star_sound. Qed.
+Print Assumptions C11_paths_sound.
+
+Theorem C11_paths_one : forall Ld cfg F q r, paths_star Ld F cfg [q] = Ok r -> forall s, In s r <-> hit Ld cfg F q s.
+Proof. exact paths_star_spec_one. Qed.
+Print Assumptions C11_paths_one.
